@@ -13,7 +13,29 @@ from .hist import Index
 LITERALS = ["10.0.0.5", "192.168.1.77", "fd00::5", "fe80::1%3", "::1", "2001:db8::2%12"]
 LOCALS = ["mydev", "mydev.local", "mydev.local.", "other", "other.local"]
 FQDNS = ["dev.example.com", "esp.lan", "node.example.org.", "kitchen.intralocal", "node.office-local", "dev.example.nonlocal."]
+# names a resolver library refuses: mDNS instance labels longer than 63 bytes or with control characters (zeroconf raises in the
+# request constructor), host names with an empty or > 63 byte label (the idna codec in socket.getaddrinfo raises UnicodeError)
+ODD_LOCALS = ["x" * 63 + ".local", "x" * 64 + ".local", "bad\x07name.local", "y" * 70]
+ODD_FQDNS = ["x" * 64 + ".example.com", "a..b.example.com", "x" * 63 + ".example.com"]
 V4 = ["10.1.0.1", "10.1.0.2", "10.1.0.3"]
+
+
+def mdns_name_ok(name: str) -> bool:
+    import zeroconf
+
+    try:
+        zeroconf.service_type_name(f"{name}._esphomelib._tcp.local.", strict=False)
+    except zeroconf.BadTypeInNameException:
+        return False
+    return True
+
+
+def idna_ok(host: str) -> bool:
+    try:
+        host.encode("idna")
+    except UnicodeError:
+        return False
+    return True
 V6 = ["fd00::11", "fd00::12"]
 
 
@@ -46,7 +68,7 @@ def expect(scn_net: dict, hosts: list[str], port: int, mdns_dead: bool = False) 
                 got.append([int(socket.AF_INET), str(ip), port, None, None])
             out += got
             continue
-        if k == "local" and not mdns_dead:
+        if k == "local" and not mdns_dead and mdns_name_ok(h.partition(".")[0]):
             name = h.partition(".")[0]
             trace.append(("mdns", name))
             ent = scn_net.get("mdns", {}).get(name, {"outcome": "none"})
@@ -58,7 +80,7 @@ def expect(scn_net: dict, hosts: list[str], port: int, mdns_dead: bool = False) 
         if not got:
             trace.append(("os", h))
             ent = scn_net.get("resolver", {}).get(h, scn_net.get("resolver", {}).get("*", {"result": "error"}))
-            res = ent.get("result", "error")
+            res = ent.get("result", "error") if idna_ok(h) else "error"  # (a name the OS resolver cannot even encode)
             if res == "error":
                 open_ = True
                 return None, True, trace
@@ -188,6 +210,8 @@ def gen_net(rng: random.Random, hosts: list[str]) -> dict:
 def gen_c20(rng: random.Random) -> dict:
     n = rng.randint(1, 4)
     hosts = [pick(rng, LITERALS + LOCALS + FQDNS) for _ in range(n)]
+    if rng.random() < 0.12:
+        hosts[rng.randrange(n)] = pick(rng, ODD_LOCALS + ODD_FQDNS)
     net = gen_net(rng, hosts)
     knobs = gen_knobs(rng)
     if rng.random() < 0.4:
